@@ -55,9 +55,13 @@ class World:
         self.tags = record if record is not None else []
         self.noops = 0
         layout = layout or {}
+        nil = layout.get("nil")  # [kind index, node index]: that node carries the nil UUID
         for k in KINDS:
             for i in range(INIT_COUNTS[k]):
-                self.new_node(k)
+                if nil and KINDS[nil[0] % len(KINDS)] == k and nil[1] % INIT_COUNTS[k] == i:
+                    self.new_node(k, uuid=uuid.UUID(int=0))
+                else:
+                    self.new_node(k)
         # initial layout through parent= keywords is modelled as setparent ops
         for k in ["mod", "sec", "bi", "blk", "prx", "sym"]:
             for i, p in enumerate(layout.get(k, [])):
